@@ -277,10 +277,27 @@ func (r *Report) Borrow(from *Report, rules ...string) {
 	for _, x := range rules {
 		want[x] = true
 	}
-	for _, o := range from.Obs {
-		if want[o.Rule] {
-			r.Ob(o.Rule, o.Construct, o.Pos, o.OK, o.Msg)
+	known, _ := LoadKnown(r.Root)
+	isKnown := func(key string) bool {
+		if known == nil {
+			return false
 		}
+		for _, k := range known.Findings {
+			if k.Property == from.Property && k.Key == key {
+				return true
+			}
+		}
+		return false
+	}
+	for _, o := range from.Obs {
+		if !want[o.Rule] {
+			continue
+		}
+		if !o.OK && isKnown(o.Key) {
+			// recorded under the property that owns the rule; not reported a second time here
+			continue
+		}
+		r.Ob(o.Rule, o.Construct, o.Pos, o.OK, o.Msg)
 	}
 	for _, f := range from.Fatal {
 		r.Fatal = append(r.Fatal, "("+from.Property+" rule set) "+f)
